@@ -26,7 +26,7 @@ import (
 //	A     one gatherer attempt: pre/a1/a2 = action placed before the acquisition / after it /
 //	      between the last step and addCandidate (0 none 1 Restart 2 Close 3 Failed);
 //	      acq = 1 socket granted, 0 refused; steps: srflx "1" reply "0" timeout "2" closed by the
-//	      loop-done watcher (a1 = Close); relay: factory, Listen, Allocate outcomes e.g. "111", "10"
+//	      loop-done watcher (a1 = Close); relay: factory, Listen, Allocate, relayed-address outcomes e.g. "1111", "10", "1110" (address of a family not configured), "1112" (location-tracked address)
 //	T     after the cycle: R Restart, F Failed, G a second plain cycle, C Close; a checkpoint
 //	      (per-resource open/close-call tallies + number of local candidates) follows each
 //
@@ -291,7 +291,7 @@ func build(l lcase) (*world, *gf.Net, error) {
 		nclient := 0
 		opts = append(opts, ice.VerifWithTURNClientFactory(func(cfg *turn.ClientConfig) (ice.VerifTURNClient, error) {
 			a, ok := w.cur()
-			steps := "111"
+			steps := "1111"
 			if ok {
 				w.act(a.a1)
 				steps = a.steps
@@ -308,6 +308,12 @@ func build(l lcase) (*world, *gf.Net, error) {
 			}
 			nclient++
 			cl := &gf.TURNClient{ID: nclient, Conn: cfg.Conn, Relayed: &net.UDPAddr{IP: net.IPv4(192, 0, 2, 60).To4(), Port: 50000 + nclient}}
+			switch at(3) { // the relayed address the server hands out: accepted, or refused after the allocation exists
+			case '0': // a family that is not configured (the agent is udp4-only)
+				cl.Relayed = &net.UDPAddr{IP: net.ParseIP("2001:db8::60"), Port: 50000 + nclient}
+			case '2': // a location-tracked (link-local IPv6) address
+				cl.Relayed = &net.UDPAddr{IP: net.ParseIP("fe80::60"), Port: 50000 + nclient}
+			}
 			if at(1) == '0' {
 				cl.ListenErr = errors.New("listen refused")
 			}
@@ -488,10 +494,10 @@ func stepsFor(site int, c *Ctx, fault bool) string {
 		return "1"
 	case 3:
 		if fault {
-			return []string{"0", "10", "110"}[c.Rng.Intn(3)]
+			return []string{"0", "10", "110", "1110", "1112"}[c.Rng.Intn(5)]
 		}
 
-		return "111"
+		return "1111"
 	}
 
 	return "-"
@@ -520,7 +526,7 @@ func run(c *Ctx) error {
 		case 2:
 			stepAlts = []string{"1", "0"}
 		case 3:
-			stepAlts = []string{"111", "0", "10", "110"}
+			stepAlts = []string{"1111", "0", "10", "110", "1110", "1112"}
 		default:
 			stepAlts = []string{"-"}
 		}
